@@ -172,6 +172,12 @@ func c17Run(c *ev.Ctx, k c17Case) {
 		var c2 context.CancelFunc
 		ctx, c2 = context.WithTimeout(context.Background(), 300*time.Millisecond)
 		defer c2()
+	case "deadline30":
+		// a caller deadline far beyond what the vector needs (blocked endpoints are given up after the 1.5 s per-try
+		// timeout): the deadline must not change which endpoint answers
+		var c2 context.CancelFunc
+		ctx, c2 = context.WithTimeout(context.Background(), 30*time.Second)
+		defer c2()
 	}
 	if p := ev.Guard(func() { certs, comments, serr = signer.Sign(ctx, req) }); p != "" {
 		c.Violation("C17:crash:"+ev.PanicSite(p), p, k)
@@ -287,7 +293,7 @@ func c17Backoff(c *ev.Ctx, k c17Case) {
 }
 
 func checkC17(c *ev.Ctx) {
-	c.Rule("real crypki.NewSigner / Sign (Retries=1; per-try deadline 15 s, 1.5 s for vectors with a blocked handler) against harness gRPC Signing servers over real TLS on 127.0.0.1..4:port, one scripted answer each: every answer vector (with a live context; lists up to length 2 also with an already cancelled / already expired context, and blocked handlers with a 50 ms deadline) over endpoint lists of length 0..3 (quick; 6-answer alphabet {1/3 certificates with comments, Unavailable, Internal, empty key, one good line among bad}) and 0..4 (thorough; 13 answers incl. all status codes, 2 certificates, unparsable key, blocked handler in one position), nil and empty lists; one long-lived Signer per list length serves all vectors of that length (answers change between its calls); oracle from per-endpoint request logs (strict order, stop at first success, request proto-equal, certificates/comments parallel, never an empty success). Back-off: complete grid attempts {0..64, 2^k-1, 2^k, 2^k+1 (k<=32)} x base {0,1ns,1ms,2s,=max} x max {0,1ms,15s,1h,2^53ns} x multiplier {1,1+2^-52,1.5,3,10,1e9,MaxFloat64} x jitter {0,0.2,1} x jitter-seam answers {0,0.5,1-2^-53}. non-trivial = vector with at least one endpoint / grid point with attempt>0; distinct by vector")
+	c.Rule("real crypki.NewSigner / Sign (Retries=1; per-try deadline 15 s, 1.5 s for vectors with a blocked handler) against harness gRPC Signing servers over real TLS on 127.0.0.1..4:port, one scripted answer each: every answer vector (with a live context; lists up to length 2 also with an already cancelled / already expired context, blocked handlers with a 50 ms deadline, and blocked endpoints before a healthy one under a 30 s caller deadline) over endpoint lists of length 0..3 (quick; 6-answer alphabet {1/3 certificates with comments, Unavailable, Internal, empty key, one good line among bad}) and 0..4 (thorough; 13 answers incl. all status codes, 2 certificates, unparsable key, blocked handler in one position), nil and empty lists; one long-lived Signer per list length serves all vectors of that length (answers change between its calls); oracle from per-endpoint request logs (strict order, stop at first success, request proto-equal, certificates/comments parallel, never an empty success). Back-off: complete grid attempts {0..64, 2^k-1, 2^k, 2^k+1 (k<=32)} x base {0,1ns,1ms,2s,=max} x max {0,1ms,15s,1h,2^53ns} x multiplier {1,1+2^-52,1.5,3,10,1e9,MaxFloat64} x jitter {0,0.2,1} x jitter-seam answers {0,0.5,1-2^-53}. non-trivial = vector with at least one endpoint / grid point with attempt>0; distinct by vector")
 	c.Assume("configurations whose MaxDelay x (1+Jitter) is not representable as a time.Duration are outside the grid", "TLS/gRPC internals run with their own goroutines and real time; no timing oracle is used")
 	if c.ReplayCase != nil {
 		var k c17Case
@@ -390,6 +396,10 @@ func checkC17(c *ev.Ctx) {
 	}
 	for _, v := range [][]string{{"block"}, {"block", "ok1"}, {"unavailable", "block"}, {"block", "block"}} {
 		c17Run(c, c17Case{Kind: "signer", Endpoints: v, Ctx: "short"})
+	}
+	// endpoints that hang until the per-try timeout, under a generous caller deadline: the later endpoint still answers
+	for _, v := range [][]string{{"block", "ok1"}, {"block", "block", "ok3"}, {"block", "block", "block", "ok1"}, {"unavailable", "block", "ok2"}, {"ok1"}, {"internal", "ok1"}} {
+		c17Run(c, c17Case{Kind: "signer", Endpoints: v, Ctx: "deadline30"})
 	}
 	for i, v := range vecs {
 		if c.Expired("answer vectors") {
